@@ -232,10 +232,15 @@ def probe(name, cases, timeout=900, args=()):
     """Run `dprobe <name>` on JSON cases (one per line); returns list of decoded outputs."""
     inp = '\n'.join(json.dumps(c, separators=(',', ':')) for c in cases) + '\n'
     rc, out, err = sh([DPROBE, name] + list(args), inp=inp, timeout=timeout, env={'RUST_BACKTRACE': '0'})
-    lines = [l for l in out.splitlines() if l.startswith('{') or l.startswith('[') or l[:1].isdigit() or l.startswith('"') or l in ('null', 'true', 'false')]
-    if rc != 0 or len(lines) != len(cases):
-        raise Broken('dprobe %s failed (rc=%s, %d/%d outputs)' % (name, rc, len(lines), len(cases)), (out[-1500:] + err[-2500:]))
-    return [json.loads(l) for l in lines]
+    vals = []
+    for l in out.splitlines():
+        # the real code prints role transitions etc. on stdout; keep only the lines that are JSON values
+        if not l or not (l[0] in '[{"' or l[0].isdigit() or l in ('null', 'true', 'false')): continue
+        try: vals.append(json.loads(l))
+        except ValueError: continue
+    if rc != 0 or len(vals) != len(cases):
+        raise Broken('dprobe %s failed (rc=%s, %d/%d outputs)' % (name, rc, len(vals), len(cases)), (out[-1500:] + err[-2500:]))
+    return vals
 
 def probe_parallel(name, cases, jobs=12, timeout=900, args=()):
     if len(cases) < 64: return probe(name, cases, timeout, args)
